@@ -26,6 +26,12 @@ CHECKS.update({
     "C05": ("TLC exhaustive interleavings (Inv_C05 read monitor) + reader/writer programs on the real code under the schedule controller; TLC checks every returned value against the values observed during the call", "5.C05"),
     "C15": ("TLC deadlock check + liveness (WF) + lock-order invariant on CasConc; controller detects blocked workers in explored schedules of the real code", "5.C15"),
 })
+CHECKS.update({
+    "C11": ("TLC exhaustive orders of open/clone/drop/kill over CasLock (flock race as separate steps) + the printed behaviours replayed with real processes and handles; results, interposer log of losing opens and directory digests validated by TLC (TraceLock)", "5.C11"),
+    "C16": ("codecs and segment framing transcribed in TLA+ (Codec): round-trip and totality model-checked; every enumerated byte string / value / mutation is decoded by the real functions and compared by TLC; counting allocator for the allocation bound", "5.C16"),
+    "C17": ("get_range transcribed in TLA+ (RangeRead); the property is an invariant over the whole (L,start,end) cube incl. symbolic 2^32, 2^63, 2^64-1; every point executed on real blobs and compared by TLC", "5.C17"),
+    "C18": ("buffered transaction and hash<->path mapping in TLA+ (BlobId): all chunkings model-checked; real transactions for all chunkings x atom sizes and path vectors validated by TLC against an independent BLAKE3", "5.C18"),
+})
 PENDING = {
     "C11": "CasLock specification and multi-process harness not built yet in this revision",
     "C16": "Codec/WalFrame specification and vector harness not built yet in this revision",
@@ -72,13 +78,21 @@ def main():
         f.write("\n")
 
 
-ENGINE = {"C04": "conc", "C05": "conc", "C15": "conc"}
+ENGINE = {"C04": "conc", "C05": "conc", "C15": "conc", "C11": "lock", "C16": "vec", "C17": "vec", "C18": "vec"}
 CONC_NOTE = "threads are serialised at the yield points of the verif feature (every lock acquisition and every shared filesystem call), so races inside one step and memory-model effects are not explored; TLC exhaustive only up to the thread/operation counts in the evidence; parking_lot and kernel rename/unlink trusted"
-NOTE = {"C04": CONC_NOTE, "C05": CONC_NOTE, "C15": CONC_NOTE}
+VEC_NOTE = "the transcription is bound to the code by one recorded call per enumerated input; exhaustive only inside the enumerated domain (sizes in the evidence), seeded random beyond; u32 >= 65536 and u64 values are symbolic in TLA+; BLAKE3 itself trusted"
+NOTE = {"C04": CONC_NOTE, "C05": CONC_NOTE, "C15": CONC_NOTE, "C16": VEC_NOTE, "C17": VEC_NOTE, "C18": VEC_NOTE,
+        "C11": "kernel flock semantics trusted; 2-4 processes and up to 3 handles; racing opens are barrier-started, not exhaustively timed"}
 CONC_TECH = "TLA+ spec (CasConc) model-checked by TLC over all interleavings + schedule-controlled real threads validated against the spec by TLC (TraceConc)"
-TECH = {"C04": CONC_TECH, "C05": CONC_TECH, "C15": CONC_TECH}
+VEC_TECH = "function transcribed in TLA+, property model-checked by TLC over the enumerated domain + TLC validation of recorded real calls (TraceVec)"
+TECH = {"C04": CONC_TECH, "C05": CONC_TECH, "C15": CONC_TECH, "C16": VEC_TECH, "C17": VEC_TECH, "C18": VEC_TECH,
+        "C11": "TLA+ spec (CasLock) model-checked by TLC + TLC-generated action sequences replayed with real processes, validated by TLC (TraceLock)"}
 EXTRA_ENGINES = [{"name": "conc", "path": "/verif/lib/conccheck.py", "serves_properties": ["C04", "C05", "C15"],
-                  "kind_free_text": "TLC model check of spec/MCConc + harness/src/conc.rs schedule controller over cassadilia::verif yield points + TLC trace validation spec/TraceConc"}]
+                  "kind_free_text": "TLC model check of spec/MCConc + harness/src/conc.rs schedule controller over cassadilia::verif yield points + TLC trace validation spec/TraceConc"},
+                 {"name": "vec", "path": "/verif/lib/veccheck.py", "serves_properties": ["C16", "C17", "C18"],
+                  "kind_free_text": "spec/{RangeRead,BlobId,Codec}.tla + MC modules + harness/src/vecs.rs + spec/TraceVec.tla"},
+                 {"name": "lock", "path": "/verif/lib/lockcheck.py", "serves_properties": ["C11"],
+                  "kind_free_text": "spec/{CasLock,MCLock,TraceLock}.tla + harness/src/lockp.rs (self re-exec child processes)"}]
 
 if __name__ == "__main__":
     main()
